@@ -17,6 +17,7 @@ import Model.Proto.Xreq
 import Model.Core
 import Model.Handshaker
 import Model.AcceptQ
+import Model.Inproc
 import Model.Ledger
 import Model.Bytes
 import Generated.Facts
@@ -109,6 +110,20 @@ def wslStep (s : AcceptQ.State) (op : List String) : List (AcceptQ.State × Stri
     let r := AcceptQ.step s o
     [(r.1, if r.2.isEmpty then "-" else " ".intercalate r.2)]
 
+/-- the inproc transport's rendezvous behind the line protocol -/
+def inprocStep (s : Inproc.State) (op : List String) : List (Inproc.State × String) :=
+  let nat (x : String) : Nat := x.toNat?.getD 0
+  let o : Option Inproc.Op := match op with
+    | ["listen", l, a, sp, pp] => some (.listen (nat l) (nat a) (nat sp) (nat pp))
+    | ["accept", l, call] => some (.accept (nat l) (nat call))
+    | ["dial", d, call, a, sp, pp] => some (.dial (nat d) (nat call) (nat a) (nat sp) (nat pp))
+    | ["closel", l] => some (.closeL (nat l))
+    | ["closed", d] => some (.closeD (nat d))
+    | _ => none
+  match o with
+  | none => []
+  | some o => (Inproc.step s o).map (fun r => (r.1, if r.2.isEmpty then "-" else " ".intercalate r.2))
+
 instance : BEq Ledger.State := ⟨fun a b => a.msgs == b.msgs && a.next == b.next && a.bad == b.bad⟩
 
 structure State where
@@ -126,6 +141,7 @@ structure State where
   core : List Core.State := [Core.init]
   hs : List Handshaker.State := [Handshaker.init]
   wsl : List AcceptQ.State := [AcceptQ.init]
+  inproc : List Inproc.State := [Inproc.init]
   stuck : Bool := false      -- after a disagreement the scenario is abandoned until the next `new`
 
 /-- returns (new state, agrees?, expected rendering, branch) or none for an unknown tag -/
@@ -145,6 +161,7 @@ def step (s : State) (tag : String) (args : List String) (o : String) : Option (
     | "m.ledger" => some ({ s with ledger := [{}], stuck := false }, true, "-", "new")
     | "m.hs" => some ({ s with hs := [Handshaker.init], stuck := false }, true, "-", "new")
     | "m.wsl" => some ({ s with wsl := [AcceptQ.init], stuck := false }, true, "-", "new")
+    | "m.inproc" => some ({ s with inproc := [Inproc.init], stuck := false }, true, "-", "new")
     | "m.mesh" =>
       let f := match args.getD 1 "" with
         | "bus" => Mesh.Flavor.bus
@@ -198,6 +215,9 @@ def step (s : State) (tag : String) (args : List String) (o : String) : Option (
   | "m.wsl" =>
     let (cs, exp) := advanceS s.wsl wslStep args o
     if cs.isEmpty then some ({ s with stuck := true }, false, exp, opName) else some ({ s with wsl := cs }, true, o, opName)
+  | "m.inproc" =>
+    let (cs, exp) := advanceS s.inproc inprocStep args o
+    if cs.isEmpty then some ({ s with stuck := true }, false, exp, opName) else some ({ s with inproc := cs }, true, o, opName)
   | "m.hs" =>
     let (cs, exp) := advanceS s.hs hsStep args o
     if cs.isEmpty then some ({ s with stuck := true }, false, exp, opName) else some ({ s with hs := cs }, true, o, opName)
